@@ -590,7 +590,16 @@ bool Instance::configure_tx_txin() {
             }
         } else assert(!"should never get here; was a new witprogver added?");
 
-        if (parse_script(std::vector<uint8_t>(validation.begin(), validation.end()))) {
+        // only a script that cannot be decoded is refused here: an opcode above OP_CHECKSIGADD fails validation when it
+        // is executed, not by standing in a branch that is skipped, and an oversized push is reported by the step that meets it
+        script = CScript(validation.begin(), validation.end());
+        bool decodable = true;
+        {
+            opcodetype opcode;
+            CScript::const_iterator it = script.begin();
+            while (decodable && it < script.end()) decodable = script.GetOp(it, opcode);
+        }
+        if (decodable) {
             btc_logf("valid script\n");
         } else {
             fprintf(stderr, "invalid script (witness stack last element)\n");
